@@ -27,9 +27,9 @@ fn main() {
         corpus.push(("tzdata-slim", zones::tzdata("slim")));
         corpus.push(("tzdata-fat", zones::tzdata("fat")));
     } else {
-        // quick: the bundled copies of the representative zones
-        let b: Vec<ZoneSrc> = zones::bundled().into_iter().filter(|z| zones::REP.contains(&z.name.as_str())).collect();
-        corpus.push(("bundled-rep", b));
+        // quick: all bundled zones too (slim data: this is where in-memory
+        // fattening from the footer actually adds transitions)
+        corpus.push(("bundled", zones::bundled()));
     }
 
     for (tag, zs) in &corpus {
